@@ -572,3 +572,5 @@ def replay_output_selection(obligation=None, model=None, meta=None):
     if bad:
         return {'confirmed': True, 'inputs': bad, 'observed': bad.get('observed'), 'native_cmd': 'contracts/bounded_getdata.py'}
     return {'confirmed': False, 'tried': n}
+
+replay_output_selection.real_system = True       # drives the real program on stock inputs: a crash inside repository code is a confirmed failure
